@@ -438,7 +438,9 @@ impl<T: RealNumber, M: SVDDecomposableMatrix<T>> SVD<T, M> {
         let m = U.shape().0;
         let n = V.shape().0;
         let _full = s.len() == m.min(n);
-        let tol = T::half() * (T::from(m + n).unwrap() + T::one()).sqrt() * s[0] * T::epsilon();
+        // rank tolerance max(m, n) * eps * s_max (the LAPACK / NumPy default): rounding noise in a zero
+        // singular value reaches a few eps * s_max, which the tighter 0.5 * sqrt(m + n + 1) factor let through
+        let tol = T::from(m.max(n)).unwrap() * s[0] * T::epsilon();
         SVD {
             U,
             V,
